@@ -32,6 +32,8 @@ fn presentation(family: &str, p: usize) -> (usize, Vec<Vec<isize>>) {
             (2, vec![vec![1, 1], vec![2, 2], ab])
         }
         "C" => (1, vec![vec![1; p]]),
+        // finite abelian Z_m x Z_m = <a,b | a^m, b^m, [a,b]>
+        "A" => (2, vec![vec![1; p], vec![2; p], vec![1, 2, -1, -2]]),
         // a generator declared trivial by a relator of length 1: <a,b | a, b^m>
         "L" => (2, vec![vec![1], vec![2; p]]),
         // redundant generators: <a,b,c | c a^m, c^-1 b> (infinite cyclic, b = c = a^-m)
